@@ -78,7 +78,9 @@ def generate(rng, tier):
                 if rng.random() < 0.5 and na > 1:
                     ma = [mm] * (na - 1) + [m2]
                 elif nb > 1:
-                    mb = [m2] + [mm] * (nb - 1)
+                    pos = rng.randrange(nb)          # the deviating RDM anywhere in the second stack, not only first
+                    mb = [mm] * nb
+                    mb[pos] = m2
                 else:
                     mb = [m2] * nb
             else:                        # pattern bootstrap: repeated conditions -> NaN at pairs of copies
@@ -292,3 +294,60 @@ def oracle(c, o):
                 if both.any() and not np.allclose(outs[i][both], outs[j][both], rtol=1e-3):
                     return f'rescale: proportional partial RDMs {i},{j} not brought to a common scale'
     return None
+
+
+def support(rng, tier):
+    """pooled RDMs and regression fits with commonly missing entries (pattern bootstrap) against the entry-deleted computation,
+    for the whitened methods with the matching rows and columns of V deleted"""
+    import warnings
+    warnings.simplefilter('ignore')
+    from rsatoolbox.rdm import RDMs
+    from rsatoolbox.util.pooling import pool_rdm
+    from rsatoolbox.util.matrix import get_v
+    from rsatoolbox.model import ModelWeighted
+    from rsatoolbox.model.fitter import fit_regress
+    res = []
+    rs = np.random.RandomState(17 + rng.randrange(1000))
+    for rep in range(6 if tier == 'quick' else 60):
+        nc = 5
+        sel = sorted(rs.randint(0, nc, size=nc + 1).tolist())
+        if len(set(sel)) < 4:
+            sel = sorted(set(sel) | {0, 1, 2, 3})
+            sel = sorted(sel + [sel[0]])
+        full = RDMs(rs.randint(1, 40, size=(3, nc * (nc - 1) // 2)) / 8.0)
+        data = full.subsample_pattern('index', sel)
+        basis = RDMs(rs.randint(1, 40, size=(2, nc * (nc - 1) // 2)) / 8.0)
+        k = len(sel)
+        a = rs.randn(k, k)
+        sigma = a @ a.T + np.eye(k)
+        X = data.dissimilarities
+        ok = ~np.isnan(X[0])
+        for method in ('cosine_cov', 'corr_cov'):
+            for sig in (None, sigma):
+                V = get_v(k, sig).toarray()
+                Wi = np.linalg.inv(V[ok][:, ok])
+                Xs = X[:, ok]
+                if method == 'corr_cov':
+                    Xs = Xs - Xs.mean(1, keepdims=True)
+                norms = np.sqrt(np.einsum('ij,jk,ik->i', Xs, Wi, Xs))
+                p = (Xs / norms[:, None]).mean(0)
+                if method == 'corr_cov':
+                    p = p - p.min() + 0.01
+                want = np.full(X.shape[1], np.nan)
+                want[ok] = p
+                got = pool_rdm(data, method=method, sigma_k=sig).dissimilarities[0]
+                res.append((f'pool_{method}_{"sigma" if sig is not None else "none"}_{rep}',
+                            bool(np.allclose(got, want, rtol=1e-6, atol=1e-9, equal_nan=True)), dict(method=method, sel=sel)))
+                # regression fit on the same data
+                mdl = ModelWeighted('w', basis)
+                th = fit_regress(mdl, data, method=method, pattern_idx=np.array(sel), pattern_descriptor='index', sigma_k=sig)
+                B = basis.subsample_pattern('index', sel).dissimilarities[:, ok]
+                y = p.copy()
+                if method == 'corr_cov':
+                    B = B - B.mean(1, keepdims=True)
+                    y = y - y.mean()
+                t = np.linalg.solve(B @ Wi @ B.T, B @ Wi @ y)
+                t = t / np.sqrt(np.sum(t ** 2))
+                res.append((f'regress_{method}_{"sigma" if sig is not None else "none"}_{rep}',
+                            bool(np.allclose(th, t, rtol=1e-5, atol=1e-7)), dict(method=method, sel=sel)))
+    return res
